@@ -277,9 +277,16 @@ func ops() []op {
 			if err != nil {
 				return nil, err
 			}
+			r0, s0 := new(big.Int).Set(r), new(big.Int).Set(s)
 			ok := patecdsa.Verify(&f.ecKey.PublicKey, p.put("hash3", e.msg), r, s) && patecdsa.VerifyASN1(&f.ecKey.PublicKey, p.put("hash4", e.msg), p.put("sig", der))
 			if !ok {
 				return nil, fmt.Errorf("signature does not verify")
+			}
+			if r.Cmp(r0) != 0 || s.Cmp(s0) != 0 {
+				return nil, fmt.Errorf("Verify wrote to its (r, s) arguments: r %x -> %x, s %x -> %x", r0, r, s0, s)
+			}
+			if !patecdsa.Verify(&f.ecKey.PublicKey, e.msg, r, s) {
+				return nil, fmt.Errorf("the same signature object does not verify a second time")
 			}
 			return nil, nil
 		}},
